@@ -263,6 +263,44 @@ pub fn run(tier: Tier, seed: u64) -> i32 {
                 report.count("sites_where_value_equals_drawn_bytes", 1);
             }
         }
+        // injectivity over many RNG answers: a value that is a lossy function of its draw (masked, reduced,
+        // truncated, folded) repeats although the draws differ
+        {
+            let n_scripts: u32 = if si >= 3 && si <= 6 { tier.pick(256, 2048) } else { tier.pick(2048, 16384) };
+            let mut seen: std::collections::HashMap<Vec<u8>, Vec<u8>> = Default::default();
+            let mut scripts: Vec<Vec<u8>> = (0..n_scripts).map(|i| refmodel::ctr_bytes(seed, &format!("c15-inj-{si}-{i}"), w)).collect();
+            if w == 4 {
+                // all values of each 16-bit half with the other half fixed
+                for v in 0..=0xFFFFu32 {
+                    if tier == Tier::Thorough || v % 16 == 5 {
+                        scripts.push((v | 0xA5C3_0000).to_le_bytes().to_vec());
+                        scripts.push(((v << 16) | 0x0000_3CA5).to_le_bytes().to_vec());
+                    }
+                }
+            }
+            scripts.sort();
+            scripts.dedup();
+            for sc in &scripts {
+                match call_site(site, sc) {
+                    Ok((out, _, _)) => {
+                        evals += 1;
+                        if let Some(prev) = seen.get(&out) {
+                            if prev != sc {
+                                viol(&report, site.name, "different-draws-same-value", json!({"draw_1": hex(prev), "draw_2": hex(sc), "value": hex(&out)}), format!("two different {w}-byte RNG answers give the same value {}: the value carries less than its draw", hex(&out)));
+                                break;
+                            }
+                        }
+                        seen.insert(out, sc.clone());
+                    }
+                    Err(m) => {
+                        if site.direct && !m.starts_with("setup:") {
+                            viol(&report, site.name, "panic", json!({"script": hex(sc)}), m);
+                        }
+                        break;
+                    }
+                }
+            }
+        }
         for sc in [vec![0xFFu8; w]] {
             if let Err(m) = call_site(site, &sc) {
                 if site.direct {
